@@ -15,7 +15,7 @@ RULE = ('(a) threads: 2-4 sim threads over 1-2 FileLock objects on one path (rea
         'constructor time-out in {-1, 0, 0.25}, reentrant nesting depth 1-3, hold times on a grid around the time-outs (incl. a holder that releases at exactly the instant a waiter\'s deadline expires), innermost blocks that raise and are handled inside the outer section; pre-emption at '
         'every line of aiuti/filelock.py and inside the critical section. A thread enters the harness-owned critical section only if its '
         'acquire reported success; invariant: at most one thread inside per lock file at every step (reentrant nesting counts once), '
-        'is_locked true inside, no deadlock, nothing left locked. (b) processes: see the process batches (stepped children over pipes). '
+        'is_locked true inside, no deadlock, nothing left locked. (b) processes: see the process batches (stepped children over pipes); in a quarter of those programs most children use one FileLock object that their living parent made and already used before fork(). '
         'non-trivial = >=1 cross-thread switch inside traced code; distinct by run digest.')
 LEVEL_TEXT = ('Seeded search over acquisition styles x time-outs x line-level interleavings against the real kernel lock; overlap is an '
               'in-run invariant of a harness-owned critical section, so it is observed, not inferred from is_locked.')
